@@ -36,6 +36,9 @@ async def run_class(ctx, tree, n, par, rnd, out):
                     eff = e['pw']
                     break
             supplied_set = ['<absent>', '', 'wrong', 'allpw', 's3cret-' + action, 's3cret-' + rnd.choice([a for a in MARK if a != action]), 'disable', 'none']
+            # spellings relative to the effective secret: proper prefixes, extensions, case, blanks
+            if eff and eff not in ('none', 'disable'):
+                supplied_set += rnd.sample([eff[:-1], eff[:len(eff) // 2], eff[:1], eff + 'x', eff + ' ', ' ' + eff, eff.upper(), eff[1:], eff + eff], 4)
             for sup in supplied_set:
                 hs = []
                 where = 'header'
@@ -89,4 +92,4 @@ def run(ctx):
     for o in out[:2]:
         ctx.sample({k: o[k] for k in ('access', 'cfg', 'action', 'supplied', 'report', 'status')})
     ctx.cov['rule'] = ('classes = MgrScen.tla (http_access for manager x per-action cachemgr_passwd setting absent/none/disable/secret/via-all for info, config, counters); per class a fresh '
-                       'squid and 3 actions x 8 supplied passwords (absent, empty, wrong, right, other action\'s, literal disable/none; some in the URL query); TLC evaluates Mgr.tla on every outcome.')
+                       'squid and 3 actions x 8-12 supplied passwords (absent, empty, wrong, right, other action\'s, literal disable/none, four spellings derived from the effective secret: prefixes, extensions, case, blanks; some in the URL query); TLC evaluates Mgr.tla on every outcome.')
